@@ -35,7 +35,7 @@ REL = {"o_eq": ("eq", "eq"), "o_ne": ("eq", "ne"), "o_lt": ("lt", "lt"), "o_le":
        "o_lin": ("eq", "eq"), "o_teq": ("eq", "eq"), "o_tget": ("hash", "get"), "o_dup": ("hash", "dup"),
        "rust_eq": ("eq", "eq"), "rust_cmp": ("lt", "cmp")}
 TYPE_OF = {"int": "int", "bigint": "int", "float": "float", "str": "string", "bool": "bool", "none": "NoneType",
-           "tuple": "tuple", "list": "list"}
+           "tuple": "tuple", "list": "list", "struct": "struct", "dict": "dict", "set": "set", "range": "range"}
 
 
 class _R:
@@ -124,6 +124,8 @@ def judge_pairs(rows, reps, vals, pairs, verdict, stats):
             else:
                 rel, field = REL[name]
                 want = e[field]
+                if want == "any":       # not specified (the order of two structs)
+                    continue
             stats["observations"] += 1
             if got != want:
                 verdict.disagree(cls_pair(rel, name, va, vb, e["zone"]),
